@@ -60,6 +60,12 @@ class Verifier(Executor):
         """Resolve the iterable into (St, list of (target, SSeq), n)."""
         if isinstance(it, SOpaqueObj):
             n = S.fresh("n.opaque", z3.IntSort())
+            ety = None
+            for key, t in (getattr(self.cur_contract, "opaque_elems", None) or {}).items():
+                if key in it.name: ety = t
+            if ety is not None:
+                v, st = fresh_value(st, ("seq", S.parse_type(ety)), "elems")
+                return st, [(s.target, v)], v.n
             return st.fact(n >= 0), [(s.target, OpaqueSeq(it.name))], n
         if isinstance(it, SIter):
             if it.kind == "zip":
@@ -346,8 +352,16 @@ class Verifier(Executor):
                     if oe is not None:
                         pe = PureEval(self, s, spec_env, old_st=self.entry_st)
                         self.vc(f"{short}.on_raise.{kind}", s, pe.truth(oe))
+                elif kind in c.may_raise:
+                    oe = c.on_raise.get(kind, c.on_raise.get("*"))
+                    if oe is not None:
+                        pe = PureEval(self, s, spec_env, old_st=self.entry_st)
+                        self.vc(f"{short}.on_raise.{kind}", s, pe.truth(oe))
                 else:
                     self.vc(f"{short}.no_unexpected_{kind}", s, z3.BoolVal(False), f"path raises undeclared {kind}")
+        for txt in (c.checks or {}):
+            if txt not in getattr(self, "sites_seen", set()):
+                self.vcs.append((f"{short}.after[{txt}]", [], z3.BoolVal(False), "program point not found in the function"))
         # every declared clause must appear at least once (vacuity): add trivial markers
         names_seen = {n for n, _, _, _ in self.vcs}
         for label in c.ensures:
